@@ -83,6 +83,15 @@ static void flaky_clock(struct res *r) {
         else { r->validated++; r->cls[0]++; }
     }
     E.clock_seq_n = 0;
+    /* a random source that delivers 19 identical bytes (or nothing): the birthday still comes from the clock */
+    for (int fill = 0; fill < 4; fill++) for (unsigned k = 0; k < 1024; k += 93) {
+        uint8_t keep[32]; memcpy(keep, E.tape[0], 32); memset(E.tape[0], fill == 0 ? 0 : fill == 1 ? 0xFF : fill == 2 ? 0xAA : 0x01, 32);
+        E.clock[0] = R_EPOCH + (uint64_t)k * R_STEP + 1000; polyseed_data *s = NULL; int st = polyseed_create(0, &s); r->cases++; r->calls++;
+        char rep[64]; sprintf(rep, "case %llu", (unsigned long long)E.clock[0]);
+        if (st != POLYSEED_OK) res_viol(r, "c11:create", rep, "create failed");
+        else { uint64_t B = polyseed_get_birthday(s); polyseed_free(s); if (B != R_EPOCH + (uint64_t)k * R_STEP) res_viol(r, "c11:constant-random-source", rep, "with a random source delivering identical bytes the seed created at month %u reports birthday %llu", k, (unsigned long long)B); else { r->validated++; r->cls[0]++; } }
+        memcpy(E.tape[0], keep, 32);
+    }
     res_sample(r, "clock returning e.g. (valid, valid, error value) on successive reads inside one create");
 }
 
